@@ -1,6 +1,7 @@
 import IstioModel.Common.Wire
 import IstioModel.C13.Model
 import IstioModel.C13.Conc
+import IstioModel.C13.Cla
 
 /-! Line-protocol driver for C13 (stream `index`). See harness/c13. -/
 namespace IstioModel.C13
@@ -255,18 +256,58 @@ def stepSched (d : DState) (toks : List String) : DState × String :=
         | _ => "stuck"
       (d, schedOut d before head)
 
+/-! ### Stream `cla`: index operations plus membership queries -/
+
+def showLbEp (e : Ep) : String :=
+  let a := e.addrs.headD ""
+  let addr := if e.eport = 0 then "pipe:" ++ enc a else enc a ++ ":" ++ toString e.eport
+  let h := if (e.labels.lookup drainingLabel).getD "" != "" then 3 else e.health
+  addr ++ "/h" ++ toString h ++ "/w" ++ toString (lbWeight e)
+
+def showGroup (g : Group) : String :=
+  enc g.loc ++ "{w=" ++ toString g.weight ++ ";p=0;" ++ ",".intercalate (g.eps.map showLbEp) ++ "}"
+
+def showCLA : Option (List Group) → String
+  | none => "crash"
+  | some [] => "cla -"
+  | some gs => "cla " ++ " ".intercalate (gs.map showGroup)
+
+/-- `cla <svc> <ns> <port> <subset> <proxy> <unh>  <portName> <subsetLabels> <view> <proxyCluster>
+    <clusterLocal> <nodeLocal> <proxyNode> <unhealthyOk> <persistent>`: the first six tokens name
+    the real objects (used by the harness), the rest is the builder configuration they amount to. -/
+def stepCla (d : DState) (toks : List String) : DState × String :=
+  match toks with
+  | ["cla", svc, ns, _, _, _, _, portName, sub, view, pc, cl, nl, pn, uok, pers] =>
+    if portName == "!" then (d, "cla -") else
+    let b : Builder := {
+      portName := dec portName, subset := decLabels sub,
+      view := if view == "-" then none else some (decList view),
+      proxyCluster := dec pc, clusterLocal := tokBool cl, nodeLocal := tokBool nl,
+      proxyNode := dec pn, unhealthyOk := tokBool uok, persistent := tokBool pers }
+    (d, showCLA (buildCLA b (d.idx (dec svc, dec ns))))
+  | _ =>
+    match decOp toks with
+    | none => (d, "bad-op")
+    | some op =>
+      let r := apply d.idx op
+      let keys := addKeys op d.keys
+      ({ d with idx := r.st, keys := keys },
+       (if op.isUpdate then r.push.tok else "-") ++ " | " ++ showIndex keys r.st)
+
 /-- `case <n> <stream> [unfixed]`: stream `sched` runs the concurrent model (of the repaired code
-    unless the case says `unfixed`). -/
+    unless the case says `unfixed`), stream `cla` adds membership queries to the index operations. -/
 structure Top where
-  sched : Bool := false
-  d     : DState := {}
+  stream : String := "index"
+  d      : DState := {}
 
 def stepD (t : Top) (toks : List String) : Top × String :=
   match toks with
-  | "case" :: _ :: "sched" :: rest => ({ sched := true, d := { fixed := !rest.contains "unfixed" } }, "ok")
+  | "case" :: _ :: "sched" :: rest => ({ stream := "sched", d := { fixed := !rest.contains "unfixed" } }, "ok")
+  | "case" :: _ :: "cla" :: _ => ({ stream := "cla" }, "ok")
   | "case" :: _ => ({}, "ok")
   | _ =>
-    let (d, o) := if t.sched then stepSched t.d toks else stepIndex t.d toks
+    let (d, o) := if t.stream == "sched" then stepSched t.d toks
+                  else if t.stream == "cla" then stepCla t.d toks else stepIndex t.d toks
     ({ t with d := d }, o)
 
 end IstioModel.C13
